@@ -16,6 +16,7 @@ import (
 	"strconv"
 	"strings"
 	"sync"
+	"sync/atomic"
 	"time"
 
 	"github.com/BurntSushi/toml"
@@ -59,15 +60,29 @@ func (c *recChan) snapshot() []event.Event {
 // waitFor waits until pred holds on the recorded events (events may be sent by a goroutine
 // of the service slightly after the reply was written)
 func (c *recChan) waitFor(pred func([]event.Event) bool) []event.Event {
-	deadline := time.Now().Add(5 * time.Second)
+	// generous while every wait so far was satisfied (a loaded machine must not turn a late event
+	// into a missing one); once an expected event really did not arrive within the long bound, the
+	// run already holds a violation and the remaining cases wait briefly, so that a change which
+	// drops one kind of event ends in a verdict within the minute instead of 5 s per case
+	bound := 5 * time.Second
+	if atomic.LoadInt32(&eventWaitExpired) > 2 {
+		bound = 400 * time.Millisecond
+	}
+	deadline := time.Now().Add(bound)
 	for {
 		evs := c.snapshot()
-		if pred(evs) || time.Now().After(deadline) {
+		if pred(evs) {
+			return evs
+		}
+		if time.Now().After(deadline) {
+			atomic.AddInt32(&eventWaitExpired, 1)
 			return evs
 		}
 		time.Sleep(time.Millisecond)
 	}
 }
+
+var eventWaitExpired int32
 
 // ---- storage / scratch file system ----
 
